@@ -75,8 +75,13 @@ pub fn check(id: &str, tier: Tier) -> i32 {
   }
   let spec = Spec { alphabet: alphabet.clone(), depth, oracles, sync: true, unsync: true, diff, diff_prop: "C11" };
   let t0 = std::time::Instant::now();
-  // pass 1: in-memory cells, depth 4 from every start state
-  let mem = cells(&MEM_BACKENDS, cap_plain, cap_unify);
+  // pass 1: in-memory cells, depth 4 from every start state (plus cells with minimum segment size 0)
+  let mut mem = cells(&MEM_BACKENDS, cap_plain, cap_unify);
+  for fl in Fl::ALL {
+    let mut c = Cfg::new(fl, Backend::Vec, true, cap_unify);
+    c.min_seg = 0;
+    mem.push(c);
+  }
   explore(&run, &spec, &mem, &all_starts, id);
   let mut passes = vec![json!({"cells": mem.len(), "starts": all_starts.len(), "alphabet": alphabet.len(), "depth": depth, "wall_s": t0.elapsed().as_secs_f64()})];
   // pass 2: file-backed cells at depth 3 (an open + close per history)
@@ -121,10 +126,233 @@ pub fn check(id: &str, tier: Tier) -> i32 {
     explore(&run, &spec_d, &mem, &all_starts, id);
     passes.push(json!({"cells": mem.len(), "starts": all_starts.len(), "alphabet": spec.alphabet.len(), "depth": 5, "wall_s": t3.elapsed().as_secs_f64()}));
   }
+  if id == "C20" {
+    c20_readonly(&run);
+  }
+  if id == "C03" {
+    crate::props_sched::c03_concurrent(&run, thorough);
+  }
   run.set("passes", json!(passes));
   run.set("bounds", json!({"max_live_handles": MAX_SLOTS, "alphabet": spec.alphabet.iter().map(|o| o.short()).collect::<Vec<_>>(), "starts": all_starts.iter().map(|s| s.name.clone()).collect::<Vec<_>>()}));
   run.rule("every operation history of the stated depth over the stated alphabet (steps disabled in a state prune the subtree), from every start state, in every configuration cell, replayed on real sync and unsync arenas; evaluations = complete histories; states = distinct (cell, start, depth, observation) tuples; non-trivial = history with at least one allocation that fresh space could not serve, distinct by full observation sequence");
   run.assume("sizes, types and capacities outside the alphabet are not exercised");
   run.assume("snapshot accessors and atomic wrappers added under cfg(rarena_verif) do not change behaviour");
   run.finish()
+}
+
+// ---------------------------------------------------------------------------------------------
+// C13, single-threaded part: release accounting by twin arenas
+
+/// Every history is run three times on arenas of the same flavour: as written; with every drop
+/// replaced by detach + explicit dealloc(buffer_offset, buffer_capacity); and with every owned
+/// allocation replaced by its borrowed counterpart.  After every step the allocator state
+/// (cursor, discarded, free list) must be the same in all three, the O_RELEASE oracle checks value
+/// drops, refs() and detached drops.
+fn c13_twins<A: Subject>(run: &Run, cfg: &Cfg, st: &Start, alphabet: &[Op], depth: usize) {
+  let n = alphabet.len();
+  let mut idx = vec![0usize; depth];
+  let as_explicit = |op: Op| match op {
+    Op::D(i) => Op::F(i),
+    o => o,
+  };
+  let as_borrowed = |op: Op| match op {
+    Op::BO(s) => Op::B(s),
+    Op::ABO(t, s) => Op::AB(t, s),
+    Op::TO(t) => Op::T(t),
+    o => o,
+  };
+  loop {
+    let word: Vec<Op> = idx.iter().map(|i| alphabet[*i]).collect();
+    let mut rs: Vec<Runner<A>> = (0..3).map(|_| Runner::<A>::new(cfg).unwrap()).collect();
+    let mut v = vec![];
+    for r in rs.iter_mut() {
+      for su in &st.setup {
+        match su {
+          Setup::Do(op) => {
+            r.step(*op, 0, &mut v);
+          }
+          Setup::Pin(p) => r.pin(*p as usize),
+        }
+      }
+    }
+    let mut cut = None;
+    for (k, op) in word.iter().enumerate() {
+      let mut v0 = vec![];
+      let o0 = rs[0].step(*op, O_RELEASE | O_SHADOW, &mut v0);
+      let o1 = rs[1].step(as_explicit(*op), 0, &mut v);
+      let o2 = rs[2].step(as_borrowed(*op), 0, &mut v);
+      run.trans(1);
+      let case = json!({"engine": "hist", "tag": "C13", "cfg": cfg, "start": st, "word": word[..=k].to_vec(), "oracles": O_RELEASE | O_SHADOW, "sync": A::SYNC, "unsync": !A::SYNC, "diff": false});
+      for x in v0 {
+        run.violation(crate::report::Violation { property: "C13".into(), signature: format!("C13:{}:{}", x.class, op_class(op)), message: format!("[{} {:?} start {} history {}] step {}: {}", A::FLAVOUR, cfg, st.name, word_str(&word[..=k]), k, x.msg), replay: case.clone() });
+      }
+      match (o0, o1, o2) {
+        (Some(a), Some(b), Some(c)) => {
+          let key = |o: &Obs| (o.allocated, o.discarded, o.nodes.clone());
+          if key(&a) != key(&b) {
+            run.violation(crate::report::Violation { property: "C13".into(), signature: format!("C13:drop-differs-from-explicit-dealloc:{}", op_class(op)), message: format!("[{} {:?} start {} history {}] step {} {}: after the drop (allocated, discarded, free list) = {:?}, after detach + dealloc(buffer_offset, buffer_capacity) = {:?}", A::FLAVOUR, cfg, st.name, word_str(&word[..=k]), k, op.short(), key(&a), key(&b)), replay: case.clone() });
+          }
+          if key(&a) != key(&c) {
+            run.violation(crate::report::Violation { property: "C13".into(), signature: format!("C13:owned-differs-from-borrowed:{}", op_class(op)), message: format!("[{} {:?} start {} history {}] step {} {}: with owned handles {:?}, with borrowed handles {:?}", A::FLAVOUR, cfg, st.name, word_str(&word[..=k]), k, op.short(), key(&a), key(&c)), replay: case.clone() });
+          }
+          run.states.insert(crate::report::hash_of(&(cfg, &a)));
+        }
+        (None, None, None) => {
+          cut = Some(k);
+          break;
+        }
+        _ => {
+          run.violation(crate::report::Violation { property: "C13".into(), signature: "C13:twin-enabledness".into(), message: format!("[{} history {}] step {} enabled on some twins only", A::FLAVOUR, word_str(&word[..=k]), k), replay: case });
+          cut = Some(k);
+          break;
+        }
+      }
+    }
+    if cut.is_none() {
+      run.eval(1);
+      // refs() is back to 1 once every handle is gone: drop everything that is left
+      let r = &mut rs[0];
+      let mut vv = vec![];
+      while !r.slots.is_empty() {
+        r.step(Op::D(0), O_RELEASE, &mut vv);
+      }
+      if r.a.refs() != 1 {
+        vv.push(Viol { flag: O_RELEASE, class: "refs-after-all-drops".into(), msg: format!("refs() = {} after all handles were dropped", r.a.refs()) });
+      }
+      for x in vv {
+        run.violation(crate::report::Violation { property: "C13".into(), signature: format!("C13:{}", x.class), message: format!("[{} {:?} start {} history {} + drop of all handles] {}", A::FLAVOUR, cfg, st.name, word_str(&word), x.msg), replay: json!({"engine": "hist", "tag": "C13", "cfg": cfg, "start": st, "word": word, "oracles": O_RELEASE, "sync": A::SYNC, "unsync": !A::SYNC, "diff": false}) });
+      }
+      run.nontrivial.insert(crate::report::hash_of(&(cfg, &st.name, &word)));
+    }
+    let mut k = cut.unwrap_or(depth - 1);
+    for j in k + 1..depth {
+      idx[j] = 0;
+    }
+    loop {
+      idx[k] += 1;
+      if idx[k] < n {
+        break;
+      }
+      idx[k] = 0;
+      if k == 0 {
+        return;
+      }
+      k -= 1;
+    }
+  }
+}
+
+/// file-backed: the file exists until the last arena value is dropped and disappears right then when marked
+fn c13_files<A: Subject>(run: &Run) {
+  use rarena_allocator::Allocator;
+  for fl in Fl::ALL {
+    for remove in [true, false] {
+      for order in 0..3 {
+        let cfg = Cfg::new(fl, Backend::File, true, 256);
+        let p = fresh_path("c13f");
+        let case = json!({"engine": "c13-file", "flavour": A::FLAVOUR, "fl": fl, "remove_on_drop": remove, "order": order});
+        crate::crashguard::set_case(crate::crashguard::head_of(&case));
+        let a: A = build(&cfg, Some(&p)).unwrap();
+        a.remove_on_drop(remove);
+        let b = a.clone();
+        let o = a.alloc_bytes_owned(16).unwrap();
+        let mut bad = vec![];
+        if a.refs() != 3 {
+          bad.push(format!("refs() = {} with original + clone + owned handle", a.refs()));
+        }
+        // three values; drop them in different orders, the file must exist until the last one goes
+        let mut vals: Vec<Box<dyn FnOnce()>> = vec![Box::new(move || drop(a)), Box::new(move || drop(b)), Box::new(move || drop(o))];
+        vals.rotate_left(order);
+        let total = vals.len();
+        for (i, d) in vals.into_iter().enumerate() {
+          if !p.exists() {
+            bad.push(format!("file disappeared before drop #{}", i));
+          }
+          d();
+          let last = i + 1 == total;
+          if !last && !p.exists() {
+            bad.push(format!("file removed after drop #{} of {} although arena values are alive", i + 1, total));
+          }
+          if last && remove == p.exists() {
+            bad.push(format!("after the last drop the file {} (remove_on_drop = {})", if p.exists() { "still exists" } else { "is gone" }, remove));
+          }
+        }
+        run.eval(1);
+        crate::crashguard::clear_case();
+        for m in bad {
+          run.violation(crate::report::Violation { property: "C13".into(), signature: format!("C13:file-lifetime:{}", if remove { "remove-on-drop" } else { "keep" }), message: format!("[{} {:?} order {}] {}", A::FLAVOUR, fl, order, m), replay: case.clone() });
+        }
+        let _ = std::fs::remove_file(&p);
+      }
+    }
+  }
+}
+
+/// called by the C13 check before the multi-threaded exploration
+pub fn c13_single_threaded(run: &Run, thorough: bool) {
+  use Op::*;
+  use Sz::*;
+  let alphabet = vec![B(N(7)), BO(N(16)), BO(N(0)), AB(U64, N(3)), ABO(U64, N(3)), ABO(A16, N(1)), T(Ty::Dc), TO(Ty::Dc), TO(U64), TO(UNIT), T(U32), D(0), D(1), D(2), X(0), X(1), F(0)];
+  let depth = if thorough { 4 } else { 3 };
+  let mut items = vec![];
+  for fl in Fl::ALL {
+    for (b, u) in [(Backend::Vec, false), (Backend::Vec, true), (Backend::Anon, true), (Backend::File, true)] {
+      for si in [0usize, 1, 4] {
+        for sync in [true, false] {
+          if !thorough && b == Backend::Anon && !sync {
+            continue;
+          }
+          items.push((Cfg::new(fl, b, u, if u || b == Backend::File { 256 } else { 225 }), si, sync));
+        }
+      }
+    }
+  }
+  // odd cursor start: padded aligned allocations have accessible != buffer range
+  let mut starts = fragmented_starts();
+  starts[0] = Start { name: "cursor+3".into(), setup: vec![Setup::Do(B(N(3))), Setup::Pin(0)] };
+  crate::report::par_for_each(&items, |_, (c, si, sync)| {
+    if *sync {
+      c13_twins::<rarena_allocator::sync::Arena>(run, c, &starts[*si], &alphabet, depth)
+    } else {
+      c13_twins::<rarena_allocator::unsync::Arena>(run, c, &starts[*si], &alphabet, depth)
+    }
+  });
+  c13_files::<rarena_allocator::sync::Arena>(run);
+  c13_files::<rarena_allocator::unsync::Arena>(run);
+  run.set("single_threaded_part", json!({"alphabet": alphabet.iter().map(|o| o.short()).collect::<Vec<_>>(), "depth": depth, "cells": items.len(), "oracle": "three twins per history (as written / drops as explicit dealloc of the buffer extent / owned as borrowed) must agree on (allocated, discarded, free list) after every step; value drop counts, refs(), detached drops; file lifetime with remove_on_drop"}));
+}
+
+/// discard_freelist on read-only arenas must fail with ReadOnly, whatever the free-list kind of the file
+fn c20_readonly(run: &Run) {
+  use rarena_allocator::{Allocator, Buffer, Error};
+  fn one<A: Subject>(run: &Run, fl: Fl) {
+    let cfg = Cfg::new(fl, Backend::File, true, 256);
+    let p = fresh_path("c20ro");
+    {
+      let a: A = build(&cfg, Some(&p)).unwrap();
+      let mut x = a.alloc_bytes(40).unwrap();
+      unsafe { x.detach() };
+      let m = meta_of(&x);
+      drop(x);
+      let mut y = a.alloc_bytes(8).unwrap();
+      unsafe { y.detach() };
+      drop(y);
+      unsafe { a.dealloc(m.2 as u32, m.3 as u32) };
+    }
+    for copy in [false, true] {
+      let o = cfg.options().with_read(true);
+      let a: A = unsafe { if copy { o.map_copy_read_only(&p) } else { o.map(&p) } }.unwrap();
+      let d0 = a.discarded();
+      let r = a.discard_freelist();
+      run.eval(1);
+      if !matches!(r, Err(Error::ReadOnly)) || a.discarded() != d0 {
+        run.violation(crate::report::Violation { property: "C20".into(), signature: format!("C20:discard-on-readonly:{:?}", fl), message: format!("[{} read-only ({}) arena over a {:?} file] discard_freelist() returned {:?}, discarded {} -> {}", A::FLAVOUR, if copy { "map_copy_read_only" } else { "map" }, fl, r, d0, a.discarded()), replay: json!({"engine": "c20-ro", "flavour": A::FLAVOUR, "fl": fl, "copy": copy}) });
+      }
+    }
+    let _ = std::fs::remove_file(&p);
+  }
+  for fl in Fl::ALL {
+    one::<rarena_allocator::sync::Arena>(run, fl);
+    one::<rarena_allocator::unsync::Arena>(run, fl);
+  }
 }
